@@ -376,6 +376,12 @@ func CheckExec(prop, tier string) int {
 			if wr.Crash != "" || !wr.Exhausted || IsCyclic(progs[i]) || len(progs[i].Roots) != 1 {
 				continue
 			}
+			// the enumeration of release orders only yields the full set of outcomes when nothing else is raced:
+			// no concurrency limit (the order of taking slots is not a probe) and no deduplicated task (registration
+			// versus cancellation)
+			if progs[i].N != 0 || len(gatesFor(progs[i])) > 0 {
+				continue
+			}
 			seenRC := map[rc]bool{}
 			dl := false
 			for _, r := range wr.Runs {
